@@ -34,7 +34,7 @@ def fnOf : String → Option Fn
 
 def users : List String := ["u0", "u1", "u2"]
 def kinds : List String := ["2b", "2c", "2e", "2f"]
-def toks : List String := ["", "EUR", "G1", "G2", "USD", "VT"]
+def toks : List String := ["", "BA_02", "EUR", "G1", "G2", "USD", "VT"]
 
 structure S where
   st : St
